@@ -803,7 +803,7 @@ def gen_tie_scale(chk, n):
     rng = chk.rng
     cases = []
     for i in range(n):
-        loss = i % 4 == 3
+        loss = i % 3 == 2
         V = rng.randint(2, 4)
         alphabet = list(range(V))
         foreign = [V + 1, V + 2]
@@ -1141,6 +1141,12 @@ def run(chk, cases=None):
                 "an output row with >= 2 targets; any such pair for the loss)")
     chk.assumptions += [
         "costs on the dyadic grid k/4 (k<=12), widths <= 7: every float32 operation of the cost table is exact (regime E)",
+        "stream tie-scale: costs k/2^s with integers k up to 2^19 (prices 8-19 binary orders apart, nearly equal prices, "
+        "sub nearly ins+del; all at magnitudes 2^-60..2^64), widths R<=10, H<=24, always (R+H+2)*max(k) < 2^24: every cell "
+        "of the float32 table and every term of the deletion fold is an integer number of units below 2^24, hence exact - "
+        "still regime E, judged by the same check_oc / check_loss terms on the integers k; the targets are also judged by "
+        "an exact python oracle of the definition (row minima of the integer table) because C03.Spec is exponential in "
+        "the prefix length",
         "loss in regime T: log_softmax is torch's float64 result; no discrete decision depends on the logits",
         "all three costs > 0 (hypothesis of c03_oc_member_iff); reference tensors of width 0 raise IndexError in "
         "_string_matching(return_mask=True) and zero-width tensors with eos raise in _lens_from_eos: outside the input space",
